@@ -48,6 +48,9 @@ func (p bloomParams) item(data []byte) string {
 	var sb strings.Builder
 	sb.WriteByte('[')
 	for i, v := range p.positions(data) {
+		if corrupt("bloom-trace") && i == 0 && len(data) == 36 && p.size > 100 {
+			v ^= 1 // self-test: falsified recorded positions (of outpoints) must be noticed
+		}
 		if i > 0 {
 			sb.WriteByte(',')
 		}
@@ -85,11 +88,11 @@ func pickParams(rng *rand.Rand, big bool) bloomParams {
 	}
 	sizes := []int{1, 2, 3, 5, 8, 13, 64, 200, 1000, 4096, wire.MaxFilterLoadFilterSize}
 	if big {
-		sizes = []int{4096, 20000, wire.MaxFilterLoadFilterSize}
+		sizes = []int{20000, wire.MaxFilterLoadFilterSize}
 	}
 	ks := []uint32{1, 1, 2, 3, 5, 11, 50}
 	if big {
-		ks = []uint32{1, 2, 5, 11}
+		ks = []uint32{2, 5, 11}
 	}
 	return bloomParams{size: sizes[rng.Intn(len(sizes))], k: ks[rng.Intn(len(ks))], tweak: tw, via: "LoadFilter"}
 }
@@ -499,7 +502,7 @@ func txCase(rng *rand.Rand, cs, table tla.Value, p bloomParams, st *stats) (*blo
 			// data share bit positions in this (small) filter: the exact
 			// expectation above is the oracle, the table row does not apply
 			st.add("tx-with-shared-positions")
-			if p.size >= 4096 {
+			if p.size >= 20000 {
 				st.add("tx-shared-positions-in-large-filter")
 			}
 		} else {
@@ -598,7 +601,7 @@ func runBloom(c *vrun.Ctx) error {
 		return err
 	}
 	if n := st.get("tx-shared-positions-in-large-filter"); n > 3 {
-		return fmt.Errorf("bloom: %d decision-table cases in filters of >= 4096 bytes deviate from the table because of shared bit positions: not credible", n)
+		return fmt.Errorf("bloom: %d decision-table cases in filters of >= 20000 bytes deviate from the table because of shared bit positions: not credible", n)
 	}
 	keys := st.export()
 	var ks []string
